@@ -752,6 +752,73 @@ def rule_punctuation_pairs(col, facts):
 
 
 # ---------------------------------------------------------------------------------------------
+def rule_lossy_rounds(col, facts):
+    """MPT-lossy-round: `lossy` only means "do not fall back to the slow path".  In bellerophon() and
+    binary() every result that can be returned when lossy is true is either the literal zero / infinity or
+    has passed through shared::round: an unrounded 64-bit extended float handed back as a finished result
+    is garbage after to_native (wrong by far more than one ulp, even the sign of the exponent field)."""
+    from rules.core import enum_paths, resolve_env
+    R = "MPT-lossy-round"
+    backends = []
+    if facts.config.startswith("compact") or "radix" in facts.config:
+        backends.append((PF + "bellerophon::bellerophon", 2))
+    if "power-of-two" in facts.config or "radix" in facts.config:
+        backends.append((PF + "binary::binary", 2))
+    for name, la in backends:
+        f = facts.fn(name)
+        rets = {i for i, b in enumerate(f.blocks) if f.live(i) and b["t"]["k"] == "return"}
+        rb = {bb for bb, c, a, d, t in f.calls() if callee_name(c).endswith("shared::round")}
+        col.check(R, last_seg(name) + ":round-present", bool(rb), "no call to shared::round", f.loc())
+        n = 0
+        bad = None
+        for t, atoms, env in enum_paths(f, 0, rets, want_env=True):
+            lossy = [p for e, p in atoms if strip_casts(e)[:2] == ("arg", la)]
+            if lossy and all(p is False for p in lossy):
+                continue                           # only reachable with lossy == false
+            n += 1
+            if rb & env["__blocks__"]:
+                continue
+            r = env.get(0)
+            e = strip_casts(simplify_proj(resolve_env(r[1], env))) if r and r[0] == "expr" else None
+            literal = e is not None and e[0] == "agg" and len(e[2]) == 2 and strip_casts(e[2][0]) == ("k", 0)
+            if not literal:
+                bad = show(e) if e is not None else "?"
+        col.check(R, last_seg(name) + ":lossy-results", bad is None and n >= 2,
+                  "with lossy == true a result `%s` is returned that is neither the literal zero / infinity nor rounded by shared::round" % bad, f.loc())
+
+
+# ---------------------------------------------------------------------------------------------
+def rule_reparse_skips_zeros(col, facts):
+    """PAIR-zeros: parse_number decides `many_digits` after subtracting the leading zeros of the integer and
+    fraction parts (two skip_zeros() calls on a clone), then re-reads at most `u64_step` digits.  The re-read
+    must skip the same zeros - each parse_u64_digits call consumes an iterator on which skip_zeros() was
+    called (the fraction one conditionally) - or the zeros use up the digit budget and the mantissa keeps
+    fewer significant digits than `many_digits` accounts for (lossy results off by many ulps)."""
+    from rules.pipeline import reach_from
+    R = "PAIR-zeros"
+    f = facts.fn(PF + "parse::parse_number")
+    skips = []
+    for bb, c, a, d, t in f.calls():
+        if last_seg(callee_name(c)) == "skip_zeros":
+            e = strip_casts(op_expr(f, a[0]))
+            while e[0] == "ref":
+                e = strip_casts(e[1])
+            if e[0] == "call":
+                skips.append((bb, e[3], last_seg(e[1])))
+    n = 0
+    for bb, c, a, d, t in f.calls():
+        if callee_name(c) != PF + "parse::parse_u64_digits":
+            continue
+        n += 1
+        e = strip_casts(op_expr(f, a[0]))
+        ok = e[0] == "call" and any(dest == e[3] and (bb in reach_from(f, sb)) for sb, dest, _n in skips)
+        col.check(R, "parse_number:reparse#%d:%s" % (n, last_seg(e[1]) if e[0] == "call" else "?"), ok,
+                  "the re-parse reads digits from `%s` without skip_zeros() on that iterator: leading zeros are counted against the %s-digit budget although the many-digits test had discounted them" % (show(e), "u64_step"), f.loc(f.blocks[bb]["ts"]))
+    col.floor(R, "parse_u64_digits re-parse calls", n, 2)
+    col.floor(R, "skip_zeros calls in parse_number", len(skips), 4)
+
+
+# ---------------------------------------------------------------------------------------------
 def rule_bigfloat_bits(col, facts):
     """TBL-limits (Bigfloat): byte_comp scales b+h by radix^|sci_exp| up to 2^1075 and multiplies by a
     64-bit significand: EXPONENT_BIAS + 64 bits at least."""
